@@ -374,6 +374,19 @@ func exhaustiveC02(thorough bool, emit func(C02Case) bool) {
 			return
 		}
 	}
+	// a read set: thousands of short reads, all different, far more data in total than any
+	// internal block (the caller keeps every record)
+	{
+		var many []FastqRec
+		for i := 0; i < 4000; i++ {
+			seq := realDNA(20+i%131, i, true, false)
+			q := bytes.Repeat([]byte{byte('!' + i%94)}, len(seq))
+			many = append(many, FastqRec{Name: gen.B(fmt.Sprintf("M01234:56:000000000-ABCDE:1:1101:%d:1332 1:N:0:1", i)), Seq: gen.Lit(seq), Quals: gen.Lit(q)})
+		}
+		if !emit(C02Case{Recs: many}) {
+			return
+		}
+	}
 	lens := []int{0, 1, 2, 4094, 4095, 4096, 4097, 65535, 65536, 65537, 70000, 1<<20 + 1, 2 << 20}
 	if thorough {
 		lens = append(lens, 1<<20, 4<<20)
